@@ -565,7 +565,11 @@ func (p *jsonPathParser) _createBasicCompareQuery(
 
 func (p *jsonPathParser) pushCompareEQ(
 	leftParam, rightParam *syntaxBasicCompareParameter) {
-	if leftParam.isLiteral {
+	_, leftIsLiteralValue := leftParam.param.(*syntaxQueryParamLiteral)
+	_, rightIsLiteralValue := rightParam.param.(*syntaxQueryParamLiteral)
+	if leftParam.isLiteral && !rightIsLiteralValue && (leftIsLiteralValue || !rightParam.isLiteral) {
+		// Keep a literal value on the right (its type picks the comparator),
+		// otherwise keep the constant ($-rooted) operand on the right.
 		rightParam, leftParam = leftParam, rightParam
 	}
 
